@@ -166,6 +166,10 @@ class Gibbs:
         if hasattr(self, 'samples_warmup') and Nb != 0:
             raise ValueError('Sampler already has run warmup phase. Cannot run warmup phase again.')
 
+        # Keep the warmup samples of an earlier call (a later call continues from them if no samples have been drawn yet)
+        if hasattr(self, 'samples_warmup'):
+            return
+
         # Allocate memory for samples
         samples = {}
         for par_name in self.par_names:
